@@ -228,7 +228,7 @@ def emit(run):
             elif run_ctx is not None:
                 run_ctx["win"].append((e[3], e[4]))
         elif k == "NEW":
-            _, did, lvl, par, started, cls, seed, pop, nev = e
+            _, did, lvl, par, started, cls, seed, pop, nev = e[:9]
             parents[did] = par
             is_local = cls == "LocalDeme"
             ne = req_toks(cur_new["evals"], 0 if is_local else nev) + " " + inds_tok(pop)
